@@ -584,8 +584,17 @@ pub fn render_events(w: &World) -> Vec<String> {
             Ev::ParentWoken(k, g, latest) => out.push(format!("{}waker of combinator #{} generation {} woken{}", ind, k, g, if *latest { " (latest)" } else { " (old generation)" })),
             Ev::Spurious => out.push(format!("{}spurious poll", ind)),
             Ev::DropSubject => out.push(format!("{}drop the subject", ind)),
+            Ev::Op(0, a, b) => out.push(format!("{}group.insert(child {}) -> key slot {}", ind, a, b)),
+            Ev::Op(1, a, _) => out.push(format!("{}group.remove(key slot {})", ind, a)),
+            Ev::Op(2, a, b) => out.push(format!("{}group.extend([child {}, child {}])", ind, a, b)),
+            Ev::Op(o @ 3..=5, a, _) => out.push(format!("{}group.reserve({})  (op {})", ind, a, o)),
             Ev::Op(o, a, b) => out.push(format!("{}group op {} ({}, {})", ind, o, a, b)),
             Ev::Note(0xF1FA) => out.push(format!("{}poll the subject once more after its final result (probe)", ind)),
+            Ev::Note(n) if *n & 0x8000_0000 != 0 => {
+                let (stage, seq) = ((n >> 16) & 0x7fff, n & 0xffff);
+                let st = if stage == 200 { "terminal closure".to_string() } else { format!("map closure of stage {}", stage) };
+                out.push(format!("{}{} invoked for source item {}", ind, st, seq))
+            }
             Ev::Note(n) => out.push(format!("{}note {}", ind, n)),
         }
     }
